@@ -208,3 +208,27 @@ theorem all_arrived_all_released (c : Cipher) (hc : CipherOk c) (size : Nat) (hs
   · exact Nat.le_antisymm hR.le hge
 
 end Nx.Chan
+
+namespace Nx.Chan
+open Nx
+
+/-- **graceful close is in order.** If the receiver has reached end-of-stream through the sender's DISCONNECT and that
+    `disconnect()` was called while no `send` was between its fragments, then everything the application ever passed to `send`
+    has been delivered before the end-of-stream, and nothing partial is left. -/
+theorem closed_after_everything (c : Cipher) (start : Nat) (ch : Chan) (hS : SndInv c start ch.s) (hR : RcvInv c start ch)
+    (hcl : ch.r.core.closed = true) (hclean : ch.s.clean = true) :
+    ch.s.closing = true ∧ ch.r.core.reasm.out = ch.s.sent ∧ ch.r.core.reasm.buf = [] := by
+  have hlog : ch.s.log = ch.s.log.take ch.r.nrel ++ ch.s.log.drop ch.r.nrel := (List.take_append_drop _ _).symm
+  have hcore : Core.consume c core0 ch.s.log = ch.r.core := by
+    rw [hlog, consume_append, ← hR.core, consume_closed c _ _ hcl]
+  have hclosing : ch.s.closing = true := by
+    cases h : ch.s.closing with
+    | true => rfl
+    | false =>
+      have := sndInv_log_open hS h
+      rw [hcore, hcl] at this; cases this
+  have := ((hS.dead hclosing).2.2 hclean).2
+  rw [hcore] at this
+  rw [this]; exact ⟨hclosing, rfl, rfl⟩
+
+end Nx.Chan
